@@ -84,6 +84,16 @@ def hostile_name(rng, base_off):
         return bytes([n]) + b"a" * min(n, 70) + b"\x05local\0", f"label{n}"
     if k == "utf8":
         n = rng.choice([1, 10, 21, 22, 40, 63])
+        if rng.random() < 0.4:
+            # invalid bytes mixed with valid multi-byte characters: every invalid byte grows to 3 bytes when the name is
+            # written again, the valid characters keep their 2..4 bytes (a character count underestimates the result)
+            bad = rng.choice([5, 15, 19, 21, 30])
+            good = rng.choice(["\u00e9" * rng.choice([1, 4, 10]), "\u20ac" * rng.choice([1, 3, 7]), "\U0001f600" * rng.choice([1, 2, 5])])
+            parts = [b"\xff"] * bad + [c.encode() for c in good]
+            if rng.random() < 0.5:
+                rng.shuffle(parts)
+            lab = b"".join(parts)[:63]
+            return bytes([len(lab)]) + lab + b"\x05local\0", f"utf8mixed{bad}+{len(good)}"
         return bytes([n]) + b"\xff" * n + b"\x05local\0", f"utf8x{n}"
     if k == "manylabels":
         n = rng.choice([60, 127, 128, 129, 200])
